@@ -114,10 +114,11 @@ class Arr:
 class DictV:
     """Dict with symbolic key set. keys are interned strings (ints). has(k)->Bool, get(k)->value."""
 
-    def __init__(self, has, get, vtype="int"):
+    def __init__(self, has, get, vtype="int", size=None):
         self.has = has
         self.get = get
         self.vtype = vtype
+        self.size = size  # symbolic cardinality (only related to `has` through the store operation)
 
 
 class CDict:
